@@ -133,6 +133,30 @@ class Gen:
             return all(self.is_plain(t) for _, t in self.fields_of(ty))
         return all(self.is_plain(t) for _, ts in self.variants_of(ty) for t in ts)
 
+    def temp_bool(self, d):
+        """a bool expression whose evaluation creates (and must release) temporaries that own something"""
+        r = self.r
+        forms = []
+        if self.has("tr"):
+            forms += ["treq"]
+        if self.has("str"):
+            forms += ["streq"]
+        if self.has("list"):
+            forms += ["lit_empty", "lit_contains"]
+        if not forms:
+            return self.expr("bool", max(d - 1, 1))
+        f = r.choice(forms)
+        if f == "treq":
+            return binop(r.choice(["eq", "ne"]), "plain", self.expr("Tr", 0), self.expr("Tr", 0))
+        if f == "streq":
+            return binop(r.choice(["eq", "ne"]), "str", binop("add", "str", self.expr("str", 0), self.expr("str", 0)),
+                         self.expr("str", 0))
+        et = r.choice([t for t in self.scalar_tys() if t not in FLOAT_TYS] + (["Tr"] if self.has("tr") else []) or ["i32"])
+        lst = {"k": "list", "es": [self.expr(et, 0) for _ in range(r.randint(1, 2))]}
+        if f == "lit_empty":
+            return {"k": "lcall", "m": "is_empty", "r": lst, "args": []}
+        return {"k": "lcall", "m": "contains", "r": lst, "args": [self.expr(et, 0, True)]}
+
     def eq_spec_ty(self, ty):
         if isinstance(ty, str) and ty in INT_TYS + FLOAT_TYS + ["str", "char"]:
             return ty
@@ -585,17 +609,46 @@ class Gen:
         if f == "while":
             i = self.fresh("k")
             n = r.randint(0, 3)
+            # the loop condition: a counter comparison, or a form whose evaluation creates temporaries that own
+            # something at the top level of the condition (evaluated, and released, once per iteration + 1)
+            variant = "plain"
+            if r.random() < 0.35:
+                vs = []
+                if self.has("list"):
+                    vs += ["lcont", "llen"]
+                if self.has("fstr") and self.has("str"):
+                    vs += ["fstr"]
+                if vs:
+                    variant = r.choice(vs)
+            cty = "u64" if variant == "llen" else "u8"
             self.push()
-            self.declare(i, "u8")
+            self.declare(i, cty)
             self.protected.add(i)
             body = self.stmts(r.randint(1, 2), d - 1)
             self.pop()
-            body.append({"k": "set", "p": [i], "e": binop("add", "u8", var(i), ilit("u8", 1))})
-            cond = binop("lt", "u8", var(i), ilit("u8", n))
-            if r.random() < 0.3:
-                cond = host("emit", "bool", self.tag(), [cond])
+            body.append({"k": "set", "p": [i], "e": binop("add", cty, var(i), ilit(cty, 1))})
+            if variant == "lcont":
+                n = max(n, 1)
+                es = [ilit("u8", j) for j in range(n)]
+                r.shuffle(es)
+                cond = {"k": "lcall", "m": "contains", "r": {"k": "list", "es": es}, "args": [var(i)]}
+            elif variant == "llen":
+                n = max(n, 1)
+                et = r.choice([t for t in self.scalar_tys() if t not in FLOAT_TYS] + (["Tr"] * 3 if self.has("tr") else []) or ["i32"])
+                lst = {"k": "list", "es": [self.expr(et, 0) for _ in range(n)]}
+                cond = binop("lt", "u64", var(i), {"k": "lcall", "m": "len", "r": lst, "args": []})
+            elif variant == "fstr":
+                cond = binop("ne", "str", {"k": "fstr", "ps": [{"k": "e", "ty": "u8", "e": var(i)}]},
+                             lit("str", A.str_val(str(n))))
+            else:
+                cond = binop("lt", "u8", var(i), ilit("u8", n))
+                if r.random() < 0.3:
+                    cond = host("emit", "bool", self.tag(), [cond])
+                if r.random() < 0.4:
+                    extra = self.temp_bool(d) if r.random() < 0.6 else self.expr("bool", max(d - 1, 1))
+                    cond = binop("and", "bool", extra, cond) if r.random() < 0.6 else binop("and", "bool", cond, extra)
             # counter declaration + loop live in their own block
-            return block([let(i, "u8", ilit("u8", 0)), {"k": "while", "c": cond, "b": block(body)}])
+            return block([let(i, cty, ilit(cty, 0)), {"k": "while", "c": cond, "b": block(body)}])
         if f == "for":
             ety = r.choice([t for t in self.scalar_tys() if t not in FLOAT_TYS] or ["i32"])
             cands = [n for (n, t) in self.all_vars() if t == ["list", ety]]
